@@ -26,6 +26,10 @@ pub enum Codec {
     Json,
     Cbor,
     Borsh,
+    /// serde_cbor's packed format: struct fields keyed by index instead of by name (a positional family)
+    CborPacked,
+    /// through a serde_json::Value tree (to_value / from_value), then text
+    JsonValue,
 }
 
 impl Codec {
@@ -34,6 +38,8 @@ impl Codec {
             Codec::Json => "serde_json",
             Codec::Cbor => "serde_cbor",
             Codec::Borsh => "borsh",
+            Codec::CborPacked => "serde_cbor(packed)",
+            Codec::JsonValue => "serde_json(Value tree)",
         }
     }
 }
@@ -195,7 +201,9 @@ impl<T: Serialize + DeserializeOwned + MaybeBorsh + PartialEq + std::fmt::Debug>
 fn encode_plain<V: Wire>(codec: Codec, v: &V) -> Result<Vec<u8>, String> {
     match codec {
         Codec::Json => serde_json::to_vec(v).map_err(|e| e.to_string()),
+        Codec::JsonValue => serde_json::to_value(v).and_then(|t| serde_json::to_vec(&t)).map_err(|e| e.to_string()),
         Codec::Cbor => serde_cbor::to_vec(v).map_err(|e| e.to_string()),
+        Codec::CborPacked => serde_cbor::ser::to_vec_packed(v).map_err(|e| e.to_string()),
         #[cfg(feature = "borsh")]
         Codec::Borsh => borsh::to_vec(v).map_err(|e| format!("{e:?}")),
         #[cfg(not(feature = "borsh"))]
@@ -205,7 +213,8 @@ fn encode_plain<V: Wire>(codec: Codec, v: &V) -> Result<Vec<u8>, String> {
 fn decode_plain<V: Wire>(codec: Codec, b: &[u8]) -> Result<V, String> {
     match codec {
         Codec::Json => serde_json::from_slice(b).map_err(|e| e.to_string()),
-        Codec::Cbor => serde_cbor::from_slice(b).map_err(|e| e.to_string()),
+        Codec::JsonValue => serde_json::from_slice::<serde_json::Value>(b).and_then(serde_json::from_value).map_err(|e| e.to_string()),
+        Codec::Cbor | Codec::CborPacked => serde_cbor::from_slice(b).map_err(|e| e.to_string()),
         #[cfg(feature = "borsh")]
         Codec::Borsh => borsh::from_slice(b).map_err(|e| format!("{e:?}")),
         #[cfg(not(feature = "borsh"))]
@@ -215,7 +224,12 @@ fn decode_plain<V: Wire>(codec: Codec, b: &[u8]) -> Result<V, String> {
 fn encode_piped<V: Wire>(codec: Codec, v: &V, w: &mut PipeW) -> Result<(), String> {
     match codec {
         Codec::Json => serde_json::to_writer(w, v).map_err(|e| e.to_string()),
+        Codec::JsonValue => serde_json::to_value(v).and_then(|t| serde_json::to_writer(w, &t)).map_err(|e| e.to_string()),
         Codec::Cbor => serde_cbor::to_writer(w, v).map_err(|e| e.to_string()),
+        Codec::CborPacked => {
+            let mut ser = serde_cbor::Serializer::new(serde_cbor::ser::IoWrite::new(w)).packed_format();
+            Serialize::serialize(v, &mut ser).map_err(|e| e.to_string())
+        }
         #[cfg(feature = "borsh")]
         Codec::Borsh => borsh::to_writer(w, v).map_err(|e| format!("{e:?}")),
         #[cfg(not(feature = "borsh"))]
@@ -225,7 +239,8 @@ fn encode_piped<V: Wire>(codec: Codec, v: &V, w: &mut PipeW) -> Result<(), Strin
 fn decode_piped<V: Wire>(codec: Codec, r: &mut PipeR) -> Result<V, String> {
     match codec {
         Codec::Json => serde_json::from_reader(r).map_err(|e| e.to_string()),
-        Codec::Cbor => serde_cbor::from_reader(r).map_err(|e| e.to_string()),
+        Codec::JsonValue => serde_json::from_reader::<_, serde_json::Value>(r).and_then(serde_json::from_value).map_err(|e| e.to_string()),
+        Codec::Cbor | Codec::CborPacked => serde_cbor::from_reader(r).map_err(|e| e.to_string()),
         #[cfg(feature = "borsh")]
         Codec::Borsh => borsh::from_reader(r).map_err(|e| format!("{e:?}")),
         #[cfg(not(feature = "borsh"))]
@@ -418,7 +433,7 @@ fn valid(scn: &PipeScn) -> bool {
     if scn.nums.len() != expected_len(scn) || scn.nums.iter().any(|x| x.is_nan()) {
         return false;
     }
-    if scn.codec == Codec::Json && scn.nums.iter().any(|x| !x.is_finite()) {
+    if matches!(scn.codec, Codec::Json | Codec::JsonValue) && scn.nums.iter().any(|x| !x.is_finite()) {
         return false;
     }
     scn.pipe.wmax >= 1 && scn.pipe.rmax >= 1 && scn.pipe.eintr_w_pct <= 90 && scn.pipe.eintr_r_pct <= 90
@@ -509,9 +524,9 @@ fn gen_num(rng: &mut Rng, finite_only: bool) -> f64 {
 
 fn codecs() -> &'static [Codec] {
     if cfg!(feature = "borsh") {
-        &[Codec::Json, Codec::Cbor, Codec::Borsh]
+        &[Codec::Json, Codec::Cbor, Codec::CborPacked, Codec::JsonValue, Codec::Borsh, Codec::Borsh]
     } else {
-        &[Codec::Json, Codec::Cbor]
+        &[Codec::Json, Codec::Cbor, Codec::CborPacked, Codec::JsonValue]
     }
 }
 
@@ -555,7 +570,7 @@ fn gen_scn(rng: &mut Rng, _tier: Tier) -> PipeScn {
         },
     };
     let n = expected_len(&scn);
-    let finite_only = codec == Codec::Json;
+    let finite_only = matches!(codec, Codec::Json | Codec::JsonValue);
     scn.nums = (0..n).map(|_| gen_num(rng, finite_only)).collect();
     scn
 }
@@ -640,6 +655,8 @@ fn from_json(v: &Value) -> Result<PipeScn, String> {
         "serde_json" => Codec::Json,
         "serde_cbor" => Codec::Cbor,
         "borsh" => Codec::Borsh,
+        "serde_cbor(packed)" => Codec::CborPacked,
+        "serde_json(Value tree)" => Codec::JsonValue,
         s => return Err(format!("bad codec {s}")),
     };
     if codec == Codec::Borsh && !cfg!(feature = "borsh") {
@@ -678,8 +695,8 @@ impl World for C18 {
     }
     fn default_runs(&self, tier: Tier) -> u64 {
         match tier {
-            Tier::Quick => 300_000,
-            Tier::Thorough => 15_000_000,
+            Tier::Quick => 600_000,
+            Tier::Thorough => 20_000_000,
         }
     }
     fn generate(&self, rng: &mut Rng, tier: Tier) -> PipeScn {
@@ -693,6 +710,8 @@ impl World for C18 {
                         Codec::Json => "codec_serde_json",
                         Codec::Cbor => "codec_serde_cbor",
                         Codec::Borsh => "codec_borsh",
+                        Codec::CborPacked => "codec_serde_cbor_packed",
+                        Codec::JsonValue => "codec_serde_json_value_tree",
                     });
                     cov.hit(match base.shape {
                         Shape::Knot => "shape_knot",
@@ -750,7 +769,7 @@ impl World for C18 {
         format!("{class}/{}/{}", scn.codec.name(), type_name(scn).split(' ').next().unwrap_or(""))
     }
     fn rule(&self) -> String {
-        format!("({BUILD} build) Each run: one value of one of the 85 serializable type instantiations (Knot; Poly0..8, Log<Poly0..8>, IntOfLog<Poly0..8>, IntOfLogPoly4; Segment<X> and Piecewise<X> over those 28 piece types, 0-40 segments) with numbers drawn from random bit patterns, subnormals, +-0.0, extremes, hard decimal cases and (binary codecs) +-inf, never NaN; one codec ({}); first a fault-free transfer (to_vec/from_slice), then a transfer over the simulated pipe with a seeded maximum of bytes per write/read (1..4096) and a seeded rate of Interrupted results on both ends. Judged: value equal and bit-identical after both transfers, wire bytes identical. distinct = distinct (type instantiation, codec, segment count, pipe parameters); non-trivial = the value holds >= 2 numbers. Corrupting faults (truncation, bit flip in flight) are tallied under counters.info_*, never judged.", codecs().iter().map(|c| c.name()).collect::<Vec<_>>().join(", "))
+        format!("({BUILD} build) Each run: one value of one of the 85 serializable type instantiations (Knot; Poly0..8, Log<Poly0..8>, IntOfLog<Poly0..8>, IntOfLogPoly4; Segment<X> and Piecewise<X> over those 28 piece types, 0-40 segments) with numbers drawn from random bit patterns, subnormals, +-0.0, extremes, hard decimal cases and (binary codecs) +-inf, never NaN; one codec ({}); first a fault-free transfer (to_vec/from_slice), then a transfer over the simulated pipe with a seeded maximum of bytes per write/read (1..4096) and a seeded rate of Interrupted results on both ends. Judged: value equal and bit-identical after both transfers, wire bytes identical. distinct = distinct (type instantiation, codec, segment count, pipe parameters); non-trivial = the value holds >= 2 numbers. Corrupting faults (truncation, bit flip in flight) are tallied under counters.info_*, never judged.", { let mut n: Vec<&str> = codecs().iter().map(|c| c.name()).collect(); n.dedup(); n.join(", ") })
     }
     fn assumptions(&self) -> Vec<String> {
         vec![
